@@ -227,13 +227,27 @@ func checkCLIHelperGuards(p *core.Program, r *core.Report) {
 			case "strings.Split":
 				okG := false
 				for _, g := range liveGuards(cv.Block()) {
-					if rel, ok := core.AsRel(g); ok && rel.X == value && rel.Op == token.NEQ {
-						if s, isS := core.ConstString(rel.Y); isS && s == "" {
-							okG = true
-						}
+					if v, nonEmpty, ok := core.EmptinessTest(g); ok && v == value && nonEmpty {
+						okG = true
 					}
 				}
 				r.Check(okG, "R17.3", name, "the flag value is split into class words iff it is not empty (else the defaults)", p.InstrPos(cv), "")
+				// what is split is the flag value with every space removed, at the commas
+				okStrip, what := false, core.Describe(cv.Call.Args[0])
+				if rc, isCall := cv.Call.Args[0].(*ssa.Call); isCall && len(rc.Call.Args) >= 3 && rc.Call.Args[0] == value {
+					a, _ := core.ConstString(rc.Call.Args[1])
+					b, isB := core.ConstString(rc.Call.Args[2])
+					switch core.CallName(rc) {
+					case "strings.Replace":
+						k, isC := core.ConstInt(rc.Call.Args[3])
+						okStrip = isC && k < 0 && a == " " && isB && b == ""
+					case "strings.ReplaceAll":
+						okStrip = a == " " && isB && b == ""
+					}
+				}
+				sep, _ := core.ConstString(cv.Call.Args[1])
+				r.Check(okStrip && sep == ",", "R17.3", name, "the class list is the flag value without its spaces, split at the commas", p.InstrPos(cv),
+					"split of "+what+" at "+fmt.Sprintf("%q", sep)+": a list written `a, b` as in the usage text would lose a class")
 			case "strings.Replace":
 				k, isC := core.ConstInt(cv.Call.Args[3])
 				a, _ := core.ConstString(cv.Call.Args[1])
@@ -306,10 +320,8 @@ func checkCLIHelperGuards(p *core.Program, r *core.Report) {
 			}
 			okG := false
 			for _, g := range liveGuards(c.Block()) {
-				if rel, ok := core.AsRel(g); ok && fileFlag(rel.X) && rel.Op == wantOp {
-					if s, isS := core.ConstString(rel.Y); isS && s == "" {
-						okG = true
-					}
+				if v, nonEmpty, ok := core.EmptinessTest(g); ok && fileFlag(v) && nonEmpty == (wantOp == token.NEQ) {
+					okG = true
 				}
 			}
 			r.Check(okG, "R17.3", name, what, p.InstrPos(c), "")
